@@ -286,7 +286,7 @@ type lcCycle struct {
 	refA     int  // refused Connects while connected ("already connected")
 	refN     int  // refused Connects with Server == ""
 	refD     int  // failing dials before this cycle's successful Connect
-	hlock    bool // the parked handler calls Connected() after the enders fired (finding D12)
+	hlock    bool // the parked handler calls Connected() after the enders fired (D12)
 	relFirst bool // release the parked handler just before (instead of just after) the enders
 }
 type lcScript struct {
@@ -306,13 +306,7 @@ func (sc lcScript) fields() Fields {
 		}
 		return 0
 	}
-	tag := "lc"
-	for _, c := range sc.cycles {
-		if c.hlock {
-			tag = "lchlock" // the scripts of finding D12 are recognisable in known_findings.json
-		}
-	}
-	f := F(tag, b(sc.tracking), sc.pingMs, b(sc.flood), b(sc.ctx), len(sc.cycles))
+	f := F("lc", b(sc.tracking), sc.pingMs, b(sc.flood), b(sc.ctx), len(sc.cycles))
 	for _, c := range sc.cycles {
 		f = append(f, F(b(c.welcome), c.hs, c.inN, c.segs, c.outN, c.outBy, c.closeN, b(c.eof), b(c.rderr),
 			b(c.wrerr), b(c.cancel), c.origin, c.refA, c.refN, c.refD, b(c.hlock), b(c.relFirst))...)
@@ -387,7 +381,7 @@ type lcCase struct {
 	discCh      chan int       // DISCONNECTED handler invoked for generation g
 	handlerConn chan error     // result of the Connect made inside the DISCONNECTED handler
 	cycle       int32          // index of the cycle whose connection is current
-	closersBack int32          // Close callers of the current cycle that have returned
+	closersBack [8]int32       // per cycle: Close callers of that cycle that have returned
 	discSeen    int32          // highest generation whose DISCONNECTED handler has started
 }
 
@@ -463,7 +457,6 @@ func (k *lcCase) connectCycle(i int) error {
 		k.srv.setFail(nil)
 	}
 	atomic.StoreInt32(&k.cycle, int32(i))
-	atomic.StoreInt32(&k.closersBack, 0)
 	return k.connect()
 }
 
@@ -555,8 +548,6 @@ func (k *lcCase) run(label string) {
 	})
 	conn.HandleFunc(client.CONNECTED, func(c *client.Conn, l *client.Line) {
 		g := k.srv.curGen()
-		// sampled only while no ender can be in flight (the script fires enders after this
-		// handler has finished): see finding D12
 		k.log.add("sm:L:%d:%s", g, lcB(c.Connected()))
 		k.connectedCh <- g
 	})
@@ -570,7 +561,9 @@ func (k *lcCase) run(label string) {
 			k.parkedCh <- struct{}{}
 			<-k.releaseCh[ci]
 			if cy.hlock {
-				c.Connected() // D12: blocks for ever while a closeIf waits for this handler
+				// a handler asks "still connected?" while the disconnect is in flight (D12, fixed
+				// a078b17: this used to block for ever, and Close with it)
+				k.log.add("sm:L:%d:%s", g, lcB(c.Connected()))
 			}
 		case "emit":
 			k.emitCh <- struct{}{}
@@ -595,7 +588,7 @@ func (k *lcCase) run(label string) {
 		if i+1 < len(sc.cycles) && cy.origin == 0 {
 			// reconnect from inside the handler, once the other Close callers are back
 			want := int32(cy.closeN - 1)
-			for t := 0; atomic.LoadInt32(&k.closersBack) < want && t < 2000; t++ {
+			for t := 0; atomic.LoadInt32(&k.closersBack[i]) < want && t < 2000; t++ {
 				time.Sleep(time.Millisecond)
 			}
 			k.discCh <- g
@@ -792,7 +785,7 @@ func (k *lcCase) cycleBody(i int) bool {
 			<-start
 			conn.Close()
 			k.log.add("xr:%d", c)
-			atomic.AddInt32(&k.closersBack, 1)
+			atomic.AddInt32(&k.closersBack[i], 1)
 		}()
 	}
 	if cy.eof {
